@@ -208,7 +208,8 @@ BREAKS = ["opacity-256", "name-256", "version-3", "version-0", "version-70000", 
 def run(ctx: core.Run):
     t0 = time.time()
     tables = ctx.regenerate(extract_c01.gen_codec) or {}     # a reshaped source is a broken tie, never exit 2
-    ctx.prove(["PsdVerif.Props.C01", *__import__("desc_common").regenerate(ctx), *__import__("payload_common").regenerate(ctx)])
+    ctx.prove(["PsdVerif.Props.C01", *__import__("desc_common").regenerate(ctx), *__import__("payload_common").regenerate(ctx),
+               *__import__("payload3_common").regenerate(ctx)])
     ctx.trusted_base += [
         "Lean 4.33 kernel; axioms allowed: propext, Classical.choice, Quot.sound (audited per theorem)",
         "Model/Codec.lean, Model/Psd.lean: hand transliteration of utils.py and the skeleton classes "
@@ -492,6 +493,8 @@ def run(ctx: core.Run):
     __import__("payload_gen").run_c01(ctx)
     # ---- further payload classes brought into the model (Props/C01Payload.lean); everything is in payload_common.py
     __import__("payload_common").run(ctx)
+    # ---- third batch (Props/C01Payload3.lean): image-resource payloads, adjustments, vector data, filter effects
+    __import__("payload3_common").run(ctx)
 
 
 def systematic_payloads(ctx, classes, sink, per_class):
